@@ -165,6 +165,23 @@ def corpus_files(max_bytes=4000):
     return [r for _, r in out]
 
 
+# (e) ARBITRARY token soup: every sequence of <= n tokens over a fixed token alphabet (one or two members of every lexical class and every
+# bracket), blank-separated, at module level / inside an open function body / inside an open class body.  Unlike (a) and (b) these inputs are
+# not neighbours of a valid program.
+SOUP_FULL = ["x", "1", "1.5", "B1", "0b1", '"s"', "nil", "true", "=", "(", ")", "[", "]", "{", "}", ",", ".", ":", "+", "-", "*", "!", "?", "->", "...",
+             "<", "==", "&&", "fn", "if", "else", "while", "from", "to", "step", "return", "break", "class", "constructor", "self", "import", "export",
+             "print", "get", "or", "is", "typeof", "const", "modify", "map", "type", "assert", "\n", "+=", "?=", "int", "Self", "continue", "through"]
+SOUP_STRUCT = ["x", "1", '"s"', "=", "(", ")", "[", "]", "{", "}", ",", ".", ":", "-", "fn", "\n"]
+SOUP_HOSTS = {"module": "{S}\n", "fn": "hf = fn(q: int) -> int {\n\t{S}\n\treturn q\n}\n", "class": "class Kq {\n\t{S}\n}\n", "open": "hf = fn() {\n\tif true {\n\t\t{S}"}
+
+
+def soup(alphabet, n):
+    import itertools
+    for k in range(1, n + 1):
+        for seq in itertools.product(range(len(alphabet)), repeat=k):
+            yield seq
+
+
 class C16(Check):
     id = "C16"
     level = "exploration"
@@ -174,9 +191,11 @@ class C16(Check):
             "identifier `a` with different types; (b) every single-token mutation (delete, duplicate, swap with next, replace by / insert each "
             "token of a fixed alphabet) at every token position of corpus files; (c) nesting towers of 13 nestable constructs up to 4 kB; "
             "(d) lexical boundaries: ~150 spellings at the limits of every literal rule (decimal / hexadecimal / B / binary / float / string / identifier; "
-            "widths 8, 32, 64, 128 bits and beyond, malformed separators, escapes, stray characters) x 39 positions that treat a literal specially.  "
+            "widths 8, 32, 64, 128 bits and beyond, malformed separators, escapes, stray characters) x 39 positions that treat a literal specially; "
+            "(e) token soup: EVERY sequence of <= n tokens over a 59-token alphabet (each lexical class, bracket, keyword) and of <= n+1 tokens over its 16 structural members, "
+            "at module level, inside a function body, inside a class body and inside an unclosed nested block.  "
             "Non-trivial = the input is not accepted as a valid program (diagnostics path) or exercises a host context.")
-    assumptions = ["`mscript compile <file> --quick` with a 10 s limit per input (4 s for nesting towers in the quick tier)", "inputs < 4 kB", "arbitrary byte soup is not covered"]
+    assumptions = ["`mscript compile <file> --quick` with a 10 s limit per input (4 s for nesting towers in the quick tier)", "inputs < 4 kB", "arbitrary CHARACTER sequences are covered only as far as layer (e) (token soup) and the lexical-boundary spellings go"]
     chunksize = 32
     quick_cap_s = 300
     thorough_cap_s = 30 * 60
@@ -215,6 +234,14 @@ class C16(Check):
                         yield ("m", rel, i, "replace", t)
                         yield ("m", rel, i, "insert", t)
 
+        def soups(full_n, struct_n, hosts):
+            for h in hosts:
+                for seq in soup(SOUP_FULL, full_n):
+                    yield ("s", "F", seq, h)
+                for seq in soup(SOUP_STRUCT, struct_n if (tier == "thorough" or h in ("module", "open")) else 0):
+                    if len(seq) > full_n:
+                        yield ("s", "S", seq, h)
+
         lits = lexical_literals()
         imps = [("i", pi, fi, h) for pi in range(len(self.IMPORT_PATHS)) for fi in range(len(self.IMPORT_FORMS)) for h in self.IMPORT_HOSTS]
         ls = [("L0-nesting-towers+lexical-boundaries", [[c] for c in towers()] + [("x", c, i) for i in range(len(lits)) for c in range(len(LEX_CTX))]),
@@ -237,6 +264,10 @@ class C16(Check):
         else:
             ls.append((f"L2-grammar-k<={k}-module-host", gram(k, ["module", "fn"], pre, list(ROOTS))))
         if tier == "quick":
+            ls.append(("Ls-token-soup-all-sequences<=2-of-59-tokens+<=3-of-16-structural-tokens-x-4-hosts", soups(2, 3, list(SOUP_HOSTS))))
+        else:
+            ls.append(("Ls-token-soup-all-sequences<=3-of-59-tokens+<=4-of-16-structural-tokens-x-4-hosts", soups(3, 4, list(SOUP_HOSTS))))
+        if tier == "quick":
             ls.append(("L3-token-mutation-6-smallest-files-structural-alphabet", muts(files[:6], pestgen.STRUCTURAL)))
         else:
             ls.append(("L3-token-mutation-20-smallest-files-structural-alphabet", muts(files[:20], pestgen.STRUCTURAL)))
@@ -253,6 +284,9 @@ class C16(Check):
             return {"tower": case[1], "depth": case[2]}
         if case[0] == "x":
             return {"context": LEX_CTX[case[1]], "literal": lexical_literals()[case[2]][:80]}
+        if case[0] == "s":
+            al = SOUP_FULL if case[1] == "F" else SOUP_STRUCT
+            return {"soup": [al[i] for i in case[2]], "host": case[3]}
         if case[0] == "i":
             return {"import": self.IMPORT_FORMS[case[2]].replace("{P}", self.IMPORT_PATHS[case[1]]), "host": case[3]}
         return {"file": case[1], "token": case[2], "op": case[3], "with": case[4]}
@@ -264,6 +298,9 @@ class C16(Check):
             return PRELUDES[p] + host_wrap(host, stmt)
         if case[0] == "t":
             return tower(case[1], case[2])
+        if case[0] == "s":
+            al = SOUP_FULL if case[1] == "F" else SOUP_STRUCT
+            return SOUP_HOSTS[case[3]].replace("{S}", " ".join(al[i] for i in case[2]).replace("\\n", "\n"))
         if case[0] == "x":
             return LEX_PRELUDE + LEX_CTX[case[1]].replace("{L}", lexical_literals()[case[2]]).replace("{{", "{").replace("}}", "}") + "\n"
         _, rel, i, op, tok = case
@@ -328,7 +365,7 @@ class C16(Check):
 
     def finish(self, stats, tier):
         errs = []
-        for t in ["g", "t", "m", "x", "accepted", "diagnostic"]:
+        for t in ["g", "t", "m", "x", "s", "accepted", "diagnostic"]:
             if not stats["tags"].get(t):
                 errs.append(f"vacuity: no case with tag {t}")
         return errs
